@@ -111,7 +111,7 @@ Theorem C08_server_histories_covered : forall start ops,
   sleeps_nonneg ops = true ->
   ordered start (server_history start ops) = true /\
   (forall p t1 t2, In (Present p t1 t2) (server_history start ops) -> t1 = t2) /\
-  concat (run_chunks rule_fixed mask255 [] (chunks start (start + clean_period) ops))
+  concat (map fst (run_chunks rule_fixed mask255 [] (chunks start (start + clean_period) ops)))
     = outcomes rule_fixed mask255 (server_history start ops).
 Proof.
   exact (fun start ops H => conj (server_history_ordered start ops H)
